@@ -62,6 +62,10 @@ class Scenario:
     abort_drops: bool = True
     calls: tuple = (Call(4),)
     sched: tuple = ()  # one entry per hook occurrence: tuple of parked indices to complete
+    # bytecode-level pre-emption points (oracle-only runs, finer than the Lean model): ((k, how), ...) — at the k-th
+    # INSTRUCTION event of the caller inside joblib/parallel.py (lock not held), deliver completions: how = -1 all parked,
+    # else parked[how % len]
+    instr: tuple = ()
 
     def tokens(self):
         """Flat integer encoding for the Lean driver."""
@@ -82,7 +86,7 @@ class Scenario:
                     pd_expr=self.pd_expr, ra=self.ra, timeout=self.timeout, managed=self.managed,
                     abort_drops=self.abort_drops,
                     calls=[dict(n=c.n, fail=list(c.fail), iterfail=c.iterfail, cons=list(c.cons)) for c in self.calls],
-                    sched=[list(e) for e in self.sched])
+                    sched=[list(e) for e in self.sched], instr=[list(e) for e in self.instr])
 
     @staticmethod
     def from_json(d):
@@ -90,7 +94,7 @@ class Scenario:
                         pd_expr=d.get("pd_expr", ""), ra=d["ra"], timeout=d["timeout"], managed=d["managed"],
                         abort_drops=d["abort_drops"],
                         calls=tuple(Call(c["n"], tuple(c["fail"]), c["iterfail"], tuple(c["cons"])) for c in d["calls"]),
-                        sched=tuple(tuple(e) for e in d["sched"]))
+                        sched=tuple(tuple(e) for e in d["sched"]), instr=tuple(tuple(e) for e in d.get("instr", ())))
 
 
 # ---------------------------------------------------------------- the run
@@ -129,6 +133,10 @@ class Run:
         self.in_next = False
         self.max_parked = 0
         self.hang_at = None
+        self.instr_count = 0
+        self.instr = dict(sc.instr)
+        self.par = None
+        self.instr_fired = []
 
     def ev(self, s):
         self.log.append(s)
@@ -251,6 +259,7 @@ class Run:
         ft = _FakeTime(self)
         saved_time = jp.time
         jp.time = ft
+        mon_on = self._monitor_start(jp) if (sc.instr or self.count_instr) else None
         self.outcomes = []
         try:
             with warnings.catch_warnings():
@@ -263,6 +272,7 @@ class Run:
                 par = joblib.Parallel(
                     n_jobs=sc.nj, backend=be, batch_size=("auto" if sc.bs_auto else sc.bs[0]), pre_dispatch=pd,
                     return_as=["list", "generator", "generator_unordered"][sc.ra], **kw)
+                self.par = par
                 if sc.managed:
                     par.__enter__()
                     self.ev("enter")
@@ -283,7 +293,56 @@ class Run:
                     self.ev("exit")
         finally:
             jp.time = saved_time
+            if mon_on:
+                self._monitor_stop(mon_on)
         return self
+
+    count_instr = False
+    MONITORED = ("_start", "dispatch_one_batch", "_retrieve", "_wait_retrieval", "_get_outputs", "__call__",
+                 "_reset_run_tracking", "_abort", "_terminate_and_reset", "_raise_error_fast", "_dispatch", "__exit__", "__enter__")
+
+    def _monitor_start(self, jp):
+        import sys
+        mon = sys.monitoring
+        tool = mon.DEBUGGER_ID
+        try:
+            mon.use_tool_id(tool, "verif-ctl")
+        except ValueError:
+            mon.free_tool_id(tool)
+            mon.use_tool_id(tool, "verif-ctl")
+        codes = [getattr(jp.Parallel, n).__code__ for n in self.MONITORED if hasattr(jp.Parallel, n)]
+        codes += [getattr(jp.BatchCompletionCallBack, n).__code__ for n in ("get_status", "get_result", "_return_or_raise")]
+        codeset = set(codes)
+
+        def on_instr(code, off):
+            if code not in codeset or self.in_cb or self.par is None:
+                return
+            lock = getattr(self.par, "_lock", None)
+            if lock is not None and lock._is_owned():
+                return
+            k = self.instr_count
+            self.instr_count += 1
+            how = self.instr.get(k)
+            if how is None or not self.parked:
+                return
+            self.instr_fired.append((k, code.co_name, off))
+            if how < 0:
+                while self.parked:
+                    self.deliver(0)
+            else:
+                self.deliver(how % len(self.parked))
+
+        mon.register_callback(tool, mon.events.INSTRUCTION, on_instr)
+        for c in codes:
+            mon.set_local_events(tool, c, mon.events.INSTRUCTION)
+        return (mon, tool, codes)
+
+    def _monitor_stop(self, h):
+        mon, tool, codes = h
+        for c in codes:
+            mon.set_local_events(tool, c, 0)
+        mon.register_callback(tool, mon.events.INSTRUCTION, None)
+        mon.free_tool_id(tool)
 
     def run_call(self, par, cno, base, call, src):
         sc = self.sc
@@ -363,3 +422,10 @@ def _exc_name(e):
 
 def run_scenario(sc: Scenario) -> Run:
     return Run(sc).execute()
+
+
+def count_instructions(sc: Scenario) -> int:
+    r = Run(sc)
+    r.count_instr = True
+    r.execute()
+    return r.instr_count
